@@ -101,6 +101,7 @@ def build_carrier(name, vals):
         src_vals = [int(v) for v in vals] if kind == 'int' else [float(v) for v in vals]
         return fx.Fxp(src_vals[0] if shp == 's' else src_vals, True, W, F)
     if name == 'decimal': return Decimal(vals[0])
+    if name == 'list_int_then_dec': return [int(vals[0])] + [Decimal(v) for v in vals[1:]]      # (a Python int first, Decimals later: the kind of the first element must not decide for the others)
     if name == 'list_dec_first': return [Decimal(vals[0])] + [float(v) for v in vals[1:]]      # (a Decimal first: the list takes the Python-object path)
     if name == 'decimal_long': return Decimal(vals[0])                  # (vals are decimal STRINGS with more digits than a double holds)
     if name == 'decimal_long_list': return [Decimal(v) for v in vals]
